@@ -125,6 +125,9 @@ impl GroupB {
                     let tail = if base.starts_with('/') || base.is_empty() { "**/*.rs".to_string() } else { base.clone() };
                     return format!("{}{}", pre, tail);
                 }
+                if k % 7 == 5 {
+                    return rule_error_template(&mut rng);
+                }
                 match k % 3 {
                     0 => multibyte_fault(&mut rng, &base),
                     1 => corrupt(&mut rng, &base),
@@ -140,6 +143,46 @@ impl GroupB {
             _ => text_at(&mut rng, k),
         }
     }
+}
+
+/// Expressions that violate one rule, written from templates whose slots are filled
+/// independently: `@F` flags (possibly none) directly before a token, `@M` literal text with
+/// multi-byte characters at varying offsets, `@L`/`@R` left and right context.
+fn rule_error_template(rng: &mut Rng) -> String {
+    const TEMPLATES: &[&str] = &[
+        "@L@F<@M:2,1>@R", "@L@F<@M:3,2>@R", "@L@F<@M:0>@R", "@L@F<@M:0,0>@R", "@L@F<@M@F/:7,3>@R",
+        "a/{b,@F<@M:0,0>}", "{@M,@F<@M:5,1>}@R", "<@F<@M:2,1>:1,2>",
+        "@L@F/@F/@R", "@L@M@F/@F/@M@R", "@L@F/**/@F/@R", "@M@F/@F**/@M",
+        "@L@M@F*@F*@R", "@L@M@F*@F$@M", "@L{@M@F*,b}@F*@R", "@L@F*{@F*@M,b}@R", "<@M@F*:1,>",
+        "@M{@F/@M,b}@R", "@M<@F/@M:1,>", "{@M,@F**}@R", "@M@F**@M", "@M/@F**@M", "@L<@F**:1,>@R",
+        "{@M@F/,b}@F/@M", "<@M@F/:2>@F/@R",
+    ];
+    const FLAGS: &[&str] = &["", "", "(?i)", "(?-i)", "(?i)(?-i)", "(?i-i)"];
+    const TEXT: &[&str] = &["金ab", "😀a", "é文", "a金", "金", "ab", "aé", "ǅ", "e\u{301}x", "金金金", "x"];
+    const LEFT: &[&str] = &["", "", "金", "é/", "a", "x/(?-i)", "(?i)"];
+    const RIGHT: &[&str] = &["", "", "金", "/é", "b", ".金"];
+    let t = *rng.pick(TEMPLATES);
+    let mut out = String::new();
+    let mut it = t.chars().peekable();
+    while let Some(c) = it.next() {
+        if c == '@' {
+            match it.next() {
+                Some('F') => out.push_str(rng.pick_str(FLAGS)),
+                Some('M') => out.push_str(rng.pick_str(TEXT)),
+                Some('L') => out.push_str(rng.pick_str(LEFT)),
+                Some('R') => out.push_str(rng.pick_str(RIGHT)),
+                Some(o) => {
+                    out.push('@');
+                    out.push(o);
+                },
+                None => out.push('@'),
+            }
+        }
+        else {
+            out.push(c);
+        }
+    }
+    out
 }
 
 fn corrupt(rng: &mut Rng, base: &str) -> String {
